@@ -4,6 +4,7 @@ import (
 	"encoding/json"
 	"fmt"
 	"regexp"
+	"unicode/utf8"
 
 	tmbytes "github.com/tendermint/tendermint/libs/bytes"
 
@@ -827,6 +828,10 @@ func ValidateTags(tags []string) error {
 	}
 
 	for i, tag := range tags {
+		if !utf8.ValidString(tag) {
+			return sdkerrors.Wrap(ErrInvalidTags, fmt.Sprintf("invalid tag[%d]: not valid UTF-8", i))
+		}
+
 		if len(tag) == 0 {
 			return sdkerrors.Wrap(ErrInvalidTags, fmt.Sprintf("invalid tag[%d] length: tag must not be empty", i))
 		}
@@ -840,6 +845,11 @@ func ValidateTags(tags []string) error {
 }
 
 func ValidateServiceDescription(svcDescription string) error {
+	// text that is not valid UTF-8 cannot be written to and read back from the JSON genesis
+	if !utf8.ValidString(svcDescription) {
+		return sdkerrors.Wrap(ErrInvalidDescription, "service description is not valid UTF-8")
+	}
+
 	if len(svcDescription) > MaxDescriptionLength {
 		return sdkerrors.Wrap(ErrInvalidDescription, fmt.Sprintf("invalid service description length; got: %d, max: %d", len(svcDescription), MaxDescriptionLength))
 	}
@@ -848,6 +858,10 @@ func ValidateServiceDescription(svcDescription string) error {
 }
 
 func ValidateAuthorDescription(authorDescription string) error {
+	if !utf8.ValidString(authorDescription) {
+		return sdkerrors.Wrap(ErrInvalidDescription, "author description is not valid UTF-8")
+	}
+
 	if len(authorDescription) > MaxDescriptionLength {
 		return sdkerrors.Wrap(ErrInvalidDescription, fmt.Sprintf("invalid author description length; got: %d, max: %d", len(authorDescription), MaxDescriptionLength))
 	}
@@ -898,6 +912,10 @@ func ValidateQoS(qos uint64) error {
 }
 
 func ValidateOptions(options string) error {
+	if !utf8.ValidString(options) {
+		return sdkerrors.Wrap(ErrInvalidOptions, "options is not valid UTF-8")
+	}
+
 	if !json.Valid([]byte(options)) {
 		return sdkerrors.Wrap(ErrInvalidOptions, "options is not valid JSON")
 	}
@@ -1060,6 +1078,10 @@ func ValidateContextID(contextID []byte) error {
 func ValidateInput(input string) error {
 	if len(input) == 0 {
 		return sdkerrors.Wrap(ErrInvalidRequestInput, "input missing")
+	}
+
+	if !utf8.ValidString(input) {
+		return sdkerrors.Wrap(ErrInvalidRequestInput, "input is not valid UTF-8")
 	}
 
 	if !json.Valid([]byte(input)) {
